@@ -1480,9 +1480,7 @@ def check_cases(ctx, cases):
                 except Exception:
                     culprits = None
             sig = signature_of(case, f, culprits)
-            # the worker shrinks the first violations of a chunk: report hits of the recorded finding last
-            recorded = sig.get("copy_info_dict") is True and sig.get("cause") == "add.arg.infos"
-            pending.append((1 if recorded else 0, WHAT[f["kind"]], case, sig,
+            pending.append((0, WHAT[f["kind"]], case, sig,
                             {"first": f, "all": [dict(x) for x in findings[:8]]}))
         # ---- model op
         calls = []
